@@ -138,7 +138,7 @@ def gen_whole(rng, n):
             p['Production Tax Credit Electricity'] = rng.choice([0.0, 0.01, 0.04])
             p['Production Tax Credit Heat'] = rng.choice([0.0, 0.01, 0.4])
             p['Production Tax Credit Cooling'] = rng.choice([0.0, 0.01, 0.4])
-            p['Production Tax Credit Duration'] = rng.randint(0, L)
+            p['Production Tax Credit Duration'] = rng.choice([rng.randint(0, L), L, L, max(L - 1, 0), 0])
             p['Production Tax Credit Inflation Adjusted'] = rng.choice([True, False])
         if rng.random() < 0.6:
             p['Investment Tax Credit Rate'] = rng.choice([0.0, 0.1, 0.3, 0.5])
@@ -225,6 +225,42 @@ def whole(chk: core.Check, cases):
         chk.sample({'whole_run': {k2: r['params'][k2] for k2 in list(r['params'])[-8:]}, 'ElecPrice': V('ElecPrice')[:6]})
 
 
+def fee_twins(chk: core.Check, n):
+    """annual fees and tax relief change annual O&M by exactly their stated amounts — also when wells are redrilled, with a correlated or a
+    user-given O&M total: each configuration is run with and without the two items and the difference of the reported annual O&M is compared"""
+    rng = chk.rng
+    g = geo.grid()
+    cases, meta = [], []
+    for k in range(n):
+        econ, eu, pl = g[(k * 11 + rng.randint(0, 95)) % 96]
+        if pl == 7:
+            pl, eu = 9, 2
+        p = geo.base_params(econ, eu, pl, L=rng.choice([10, 20, 30]), n=rng.choice([1, 2]))
+        if k % 2 == 0:
+            p.update({'Maximum Drawdown': rng.choice([0.05, 0.1, 0.2]), 'Drawdown Parameter': rng.choice([0.01, 0.02])})   # the run redrills
+        if k % 3 == 0:
+            p['Total O&M Cost'] = rng.choice([1, 4.5])
+        fee, relief = rng.choice([0.25, 1.1, 3]), rng.choice([0, 0.125, 2])
+        q = dict(p)
+        q.update({'Annual License Fees Etc': fee, 'Tax Relief Per Year': relief})
+        cases += [p, q]
+        meta.append((fee, relief))
+    res = geo.pmap(_whole, cases, chk.scratch)
+    for i, (fee, relief) in enumerate(meta):
+        a, b = res[2 * i], res[2 * i + 1]
+        if not (a.get('ok') and b.get('ok')):
+            chk.tag('twins/run-failed')
+            continue
+        d = Fraction(b['e']['Coam']['value']) - Fraction(a['e']['Coam']['value'])
+        want = Fraction(fee) - Fraction(relief)
+        redr = bool(b['redrill'] and b['redrill'] > 0)
+        chk.case(('fee-twin', json.dumps(b['params'], sort_keys=True, default=str)), True)
+        chk.tag('twins/' + ('redrilling' if redr else 'no-redrilling') + ('/fixed-oam' if 'Total O&M Cost' in b['params'] else '/correlated-oam'))
+        if abs(d - want) > Fraction(1, 10**9) * max(1, abs(Fraction(b['e']['Coam']['value']))):
+            chk.fail('C16/whole/coam-adjust' + ('/redrilling' if redr else ''), f'annual license fees {fee} and tax relief {relief} change the annual O&M by {float(d):.6g}, not by their stated amounts ({float(want):.6g})',
+                     {'params': b['params'], 'redrilled': b['redrill'], 'coam_with': b['e']['Coam']['value'], 'coam_without': a['e']['Coam']['value']})
+
+
 def run(chk: core.Check) -> int:
     clean = chk.prove(['GeoVerif.Properties.C16'])
     quick = chk.tier == 'quick'
@@ -232,6 +268,7 @@ def run(chk: core.Check) -> int:
     if not quick:
         direct(chk, gen_direct(chk.rng, 0, enumerate_all=True))
     whole(chk, gen_whole(chk.rng, 150 if quick else 1500))
+    fee_twins(chk, 24 if quick else 200)
     if (not clean or chk.breaks) and not chk.failures:
         # failing-input search: more direct cases judged by the documented-shape oracle
         direct(chk, gen_direct(chk.rng, 20000))
